@@ -16,8 +16,9 @@ Theorem c30_all_schedules : forall k progs sched, 1 <= k ->
 Proof. exact c30_all_schedules_lemma. Qed.
 Print Assumptions c30_all_schedules.
 
-(* The executable experiment compared with the real code (any requested size, schedule followed
-   by the round-robin drain) is an instance. *)
-Theorem c30_exec : forall nq progs sched fuel, c30_ok progs (exec nq progs sched fuel) = true.
+(* The executable experiment compared with the real code (any requested size; schedule, then the
+   round-robin drain, then the draining thread) is an instance. *)
+Theorem c30_exec : forall nq progs sched fuel,
+  c30_ok (all_progs progs) (exec nq progs sched fuel) = true.
 Proof. exact c30_exec_lemma. Qed.
 Print Assumptions c30_exec.
